@@ -7,7 +7,7 @@ Bounds == ndJsonDeserialize(IOEnv.VERIF_BOUNDS)
 
 VARIABLES tr, l, viol
 tvars == << vars, tr, l, viol >>
-NoViol == [l |-> 0, inv |-> "ok"]
+NoViol == [l |-> 0, inv |-> "ok", exp |-> ""]
 
 TInit ==
     /\ Init
@@ -56,12 +56,12 @@ TStep ==
     /\ LET e == Trace[l] IN
        /\ Apply(e)
        /\ viol' = IF viol.inv # "ok" THEN viol
-                  ELSE LET b == Bad(e) IN IF b = "ok" THEN viol ELSE [l |-> l, inv |-> b]
+                  ELSE LET b == Bad(e) IN IF b = "ok" THEN viol ELSE [l |-> l, inv |-> b, exp |-> ToString(res')]
     /\ l' = l + 1 /\ tr' = tr /\ nops' = nops
 
 TDone ==
     /\ l = Bounds[tr].e + 1
-    /\ PrintT(<< "VERDICT", Bounds[tr].id, viol.l, viol.inv >>)
+    /\ PrintT(<< "VERDICT", Bounds[tr].id, viol.l, viol.inv, viol.exp >>)
     /\ l' = l + 1
     /\ UNCHANGED << vars, tr, viol >>
 
